@@ -54,6 +54,27 @@ def audit_pairs(run, prop, texts, pairfn, npairs, rnd):
     mm, info = vlib.judge(run, ep, prop, name="audit")
     return len(used), rejected, mm
 
+def audit_fixture(run, prop, path):
+    """a published table of lines 'a <|=|> b' as the audit (apk-tools version.data)"""
+    texts, pairs = [], []
+    idx = {}
+    def ix(t):
+        if t not in idx:
+            idx[t] = len(texts) + 1; texts.append(t)
+        return idx[t]
+    for line in open(path):
+        line = line.split("#")[0].strip()
+        if not line: continue
+        parts = line.split(" ")
+        if len(parts) != 3 or parts[1] not in "<=>": continue
+        if not all(32 < ord(c) < 127 for c in parts[0] + parts[2]): continue
+        pairs.append([ix(parts[0]), ix(parts[2]), {"<": -1, "=": 0, ">": 1}[parts[1]]])
+    ev = {"k": "audit", "eco": "alpine", "texts": texts, "pairs": pairs}
+    ep = run.path("audit.ndjson")
+    vlib.write_ndjson(ep, [ev])
+    mm, info = vlib.judge(run, ep, prop, name="audit")
+    return len(pairs), 0, mm
+
 def main(pid):
     run = vlib.Run(pid, "quick")
     rnd = random.Random(vlib.seed())
@@ -71,6 +92,9 @@ def main(pid):
             texts = sorted({t for t, _ in U["maven"]})
             n, rej, mm = audit_pairs(run, "C12", texts, maven_driver(), 20000, rnd)
             mm = [m for m in mm if m["why"] != "audit-scope"]   # the universe deliberately exceeds the scope
+        elif pid == "C14":
+            n, rej, mm = audit_fixture(run, "C14", os.path.join(vlib.REPO, "pkg/ecosystem/alpine/testdata/compare.txt"))
+            mm = [m for m in mm if m["why"] != "audit-scope"]
         elif pid == "C09":
             import check_c09
             U = vlib.universe(run, ["pypi"])
